@@ -290,5 +290,73 @@ theorem calcPenalty_eq_gram (pre post : List (Dim α)) (d : Dim α) (hs : Stride
     exact dtd_get d.knots d.order p d.naxes _ _ (Nat.mod_lt _ hn) (Nat.mod_lt _ hn)
   · rw [if_neg h, if_neg h]
 
+/-! ## the fold of `add_penalty_term` over the dimensions -/
+
+theorem penaltyGram_cons' (d : Dim α) (ds : List (Dim α)) (l : α) (ls : List α) (p : Nat) (ps : List Nat)
+    (N i j : Nat) :
+    penaltyGram (d :: ds) (l :: ls) (p :: ps) N i j
+      = l * (∑ q ∈ range (penaltyNK d p N),
+              penaltyRow d.knots d.order p d.naxes d.stride q i * penaltyRow d.knots d.order p d.naxes d.stride q j)
+        + penaltyGram ds ls ps N i j := rfl
+
+theorem penaltyFold (smoothing : List α) (porders : List Nat) (c : Nat → Dim α → Mat α) (N i j : Nat)
+    (post : List (Dim α)) (k : Nat) (acc : α)
+    (h : ∀ m d, post[m]? = some d → (c (k + m) d).val i j
+        = ∑ q ∈ range (penaltyNK d (pick porders (k + m) 0) N),
+            penaltyRow d.knots d.order (pick porders (k + m) 0) d.naxes d.stride q i
+              * penaltyRow d.knots d.order (pick porders (k + m) 0) d.naxes d.stride q j) :
+    (((post.zipIdx k).map (fun x => match x with
+        | (d, idx) => if isZero (pick smoothing idx A.zero) then none
+                      else some (pick smoothing idx A.zero, c idx d))).filterMap id).foldl
+        (fun acc sm => A.add acc (A.mul sm.1 (sm.2.val i j))) acc
+      = acc + penaltyGram post ((List.range' k post.length).map fun k => pick smoothing k 0)
+          ((List.range' k post.length).map fun k => pick porders k 0) N i j := by
+  induction post generalizing k acc with
+  | nil => simp [penaltyGram]
+  | cons d ds ih =>
+    have h0 := h 0 d (by simp)
+    rw [Nat.add_zero] at h0
+    have ih' := fun acc' => ih (k + 1) acc' (fun m d' hm => by
+      have := h (m + 1) d' (by simpa using hm)
+      rwa [show k + (m + 1) = k + 1 + m by omega] at this)
+    rw [List.zipIdx_cons, List.map_cons, List.length_cons, List.range'_succ, List.map_cons, List.map_cons,
+      penaltyGram_cons', ← h0]
+    simp only []
+    by_cases hz : isZero (pick smoothing k A.zero) = true
+    · have hz0 : pick smoothing k 0 = 0 := by
+        have := (isZero_iff _).mp hz
+        rwa [L.zero_eq] at this
+      rw [if_pos hz, List.filterMap_cons_none (by rfl), ih', hz0, zero_mul, zero_add]
+    · rw [if_neg hz, List.filterMap_cons_some (by rfl), List.foldl_cons, ih', L.add_eq, L.mul_eq, L.zero_eq, add_assoc]
+
+theorem split_at {β : Type} (l : List β) (m : Nat) (d : β) (h : l[m]? = some d) :
+    ∃ pre post, l = pre ++ d :: post ∧ pre.length = m := by
+  obtain ⟨hlt, hd⟩ := List.getElem?_eq_some_iff.mp h
+  refine ⟨l.take m, l.drop (m + 1), ?_, ?_⟩
+  · rw [← hd, ← List.drop_eq_getElem_cons hlt, List.take_append_drop]
+  · rw [List.length_take]; omega
+
+/-- the penalty matrix assembled by fit.h / calc_penalty (finite-difference matrix, DᵀD, Kronecker chain with identities,
+scaled sum over the dimensions, zero scales skipped) is the specification's `Σ_d λ_d K_dᵀK_d`, in any number of dimensions -/
+theorem penaltyMat_get_nd (dims : List (Dim α)) (smoothing : List α) (porders : List Nat)
+    (hs : StridesRowMajor dims) (i j : Nat)
+    (hi : i < natProd (dims.map (·.naxes))) (hj : j < natProd (dims.map (·.naxes))) :
+    (penaltyMat dims smoothing porders).get i j
+      = penaltyGram dims ((List.range dims.length).map fun k => pick smoothing k 0)
+          ((List.range dims.length).map fun k => pick porders k 0) (natProd (dims.map (·.naxes))) i j := by
+  unfold penaltyMat
+  simp only []
+  rw [tab2_get_ofFn _ hi hj, List.mapIdx_eq_zipIdx_map, List.range_eq_range']
+  have key := penaltyFold smoothing porders
+    (fun idx d => calcPenalty (dims.map (·.naxes)) d.knots idx d.order (pick porders idx 0))
+    (natProd (dims.map (·.naxes))) i j dims 0 A.zero (by
+      intro m d hm
+      obtain ⟨pre, post, rfl, rfl⟩ := split_at dims m d hm
+      rw [Nat.zero_add]
+      exact calcPenalty_eq_gram pre post d hs _ i j hi hj)
+  rw [L.zero_eq, zero_add] at key
+  rw [L.zero_eq]
+  exact key
+
 end
 end PsV
